@@ -724,7 +724,10 @@ func (m *Master) writeEvidence(verifDir string, seed int, wall float64, violatio
 		"seed":        seed,
 		"level":       "model_checking",
 		"coverage":    cov,
-		"assumptions": m.Check.Assumptions,
+		"assumptions": append([]string{
+			"bounded: the verdict covers exactly the histories / inputs enumerated within the bounds listed under coverage.units",
+			"trusted: Go runtime and reflect; the harness's generic function body, tokens and execution log; the reference model where the oracle uses it",
+		}, m.Check.Assumptions...),
 		"wall_s":      wall,
 		"violations":  violations,
 	}
